@@ -353,7 +353,9 @@ theorem eofClosure_good (k : Nat) (h : Good s) :
 theorem cancelPromises_good (l : List Nat) (h : Good s) :
     Good (l.foldl (fun s promise =>
         let s := s.modStream promise fun st => { st with isPendingAccept := false }
-        (s.transition promise fun s => (s.maybeCancel promise, ())).1) s) := by
+        (s.transition promise fun s =>
+          let s := s.maybeCancel promise
+          (if (s.stream promise).refCount == 0 then s.releaseClosedCapacity promise else s, ())).1) s) := by
   induction l generalizing s with
   | nil => exact h
   | cons p l ih =>
